@@ -55,6 +55,10 @@ mod stream;
 #[cfg(not(feature = "i-implement-a-third-party-backend-and-opt-into-breaking-changes"))]
 mod webtransport;
 
+#[cfg(hyperium_h3_verif)]
+#[allow(missing_docs)]
+pub mod verif_hooks;
+
 #[cfg(test)]
 mod tests;
 #[cfg(test)]
